@@ -118,3 +118,17 @@ Theorem C20_output_times_bounded :
     In e (snd (tstep c t0 s now i)) ->
     tout_time e <= now /\ (due_le s (tout_time e) \/ e = EBadPong now /\ i = IPongBad).
 Proof. exact C20_tstep_output_times. Qed.
+
+Theorem C20_refused_attempt_keeps_auth_deadline :
+  forall (c : tcfg) (t0 d hb t1 t2 : N),
+    t1 < d ->
+    d <= t2 ->
+    tstep c t0 (TConnected d hb) t1 IRefused = (TConnected d hb, []) /\
+    trun c t0 (TConnected d hb) [(t1, IRefused); (t2, IObserve)] = (TClosed, [ETimeout d]).
+Proof. exact C20_refused_keeps_deadline. Qed.
+
+Theorem C20_refused_attempt_example :
+  trun {| connect_to := 1000; auth_to := 2000; hb_min := 1000; hb_max := 4000 |} 0
+      (TConnected 2050 4000) [(300, IRefused); (900, IRefused); (2060, IObserve)] =
+    (TClosed, [ETimeout 2050]).
+Proof. exact C20_refused_keeps_deadline_example. Qed.
